@@ -578,6 +578,8 @@ spec!(
         p.push(v.iter().map(|s| s.as_str()).collect::<Vec<&str>>()),
         p.push(PushIter(v.iter().map(|s| s.as_str()))),
         { let mut t = <SliceRegion<StringRegion>>::default(); let i = flatcontainer::Push::push(&mut t, v); p.push(PushIter(flatcontainer::Region::index(&t, i))) },
+        arr_owned!(p, v, String),
+        arr_ref!(p, v, String),
         // a row read from a columns region with a *different* offset container (ReadColumns does not name it)
         { let mut t = <ColumnsRegion<StringRegion>>::default(); let i = flatcontainer::Push::push(&mut t, v); p.push(flatcontainer::Region::index(&t, i)) },
         { let mut t = <ColumnsRegion<StringRegion>>::default(); let i = flatcontainer::Push::push(&mut t, v); p.push(PushIter(flatcontainer::Region::index(&t, i).iter())) },
